@@ -1,3 +1,5 @@
+CONSTANTS
+  ReadFaultGivesUp = TRUE
 SPECIFICATION TraceSpec
 INVARIANTS ViewsAgree OnlineIffSomeReplicaAlive LeaderIsAliveReplica AssignmentsWellFormed
 PROPERTIES TGrowKeepsExisting
